@@ -22,6 +22,9 @@
 // io.ReadAll, io.Copy, io.CopyBuffer, io.SectionReader, a Read loop and Seek+ReadAll: a
 // read that ends without an error has delivered ALL the denoted bytes (length compared
 // with the true size: a clean end on a strict prefix is a violation).
+// Part 2f (parallel.go): 8 goroutines calling ReadAt on ONE fresh FileReader of a tree with
+// 16-64 distinct nested bytes blobs, landing on different unresolved bytesRef parts at the
+// same time; run in a child process (a runtime fatal error there is a violation).
 // Part 3b (dirfaults.go): every such directory again through a fetcher that fails one
 // seeded fetch once (k-th static-set blob of the walk or a member entry; error, not-exist,
 // truncated body, context cancelled): the failing call, later calls on the SAME DirReader
@@ -60,8 +63,12 @@ const (
 )
 
 func main() {
+	if os.Getenv(parChildEnv) == "parallel" {
+		parallelChild()
+		os.Exit(0)
+	}
 	ev.Main("C15", "exploration",
-		"files: lengths {0,1,64Ki+-1,256Ki+-1,288Ki+-1,320Ki+-1,1Mi+-1,1.25Mi+-1,2-5Mi} x content {zeros,random,engineered rollsum windows / periodic} x source reader shape {whole,onebyte,half,short,dataeof,zeroreads}, written with schema.WriteFileFromReader and read back; faulted writes: (one transient failure of the k-th chunk / bytes-schema / file-schema ReceiveBlob or k-th StatBlobs, before or after effect) x (learned at once / while the source still delivers / only after source EOF) x store prestate {empty, same file, same content other name, random subset, prefix chunks} x entry point {WriteFileFromReader, WriteFileMap, WriteFileChunks+upload}, nil error => every referenced blob stored and exact read-back, error => retry into the same store must succeed; trees: seeded well-formed file/bytes part trees (depth<=3; blobRef/bytesRef/hole parts, offsets, parts ending before their referent) as raw JSON, every part boundary +-1 and mid-part ReadAt, Seek+Read, full reads against the harness's own bytes.md interpreter, ForeachChunk (schemaPath and never-a-bytesRef always; chunk content when no bytesRef part is sub-ranged); sparse trees (depth<=3) with 2-8 GiB holes around 2^31/2^32/5 GiB, blobs behind them and sub-ranged bytesRef parts whose offset lies inside such a hole: ReadAt at every leaf boundary +-1, at 2^31/2^32 marks inside the holes and beyond EOF, Seek (all whences) + Read, against a lazy range interpreter of the stored JSON; every read buffer of the tree families is pre-filled with non-zero bytes (a reader must write what it reports, zeros of holes included), and trees with holes of 4 KiB-1 ... 2 MiB (depth<=3, bytesRef windows starting / ending inside holes) as well as the 2-8 GiB holes are read with ONE ReadAt / Read / io.ReadFull call into such buffers of 4 KiB+1, 8 KiB, 64 KiB, 1 MiB and seeded sizes (starting with the hole, inside it, running into it, leaving it after more than a page) and through io.CopyBuffer with one reused buffer; each tree again through a fetcher that fails one seeded fetch once (root / bytes schema / data blob; error, not-exist, truncated body, context cancelled): a read on the same FileReader or a fresh one fails or returns exactly the denoted bytes; writer-made files and every tree again with one blob below a bytesRef part (data chunk of a nested bytes blob / bytes blob two levels down) unfetchable for the whole read or on its first fetch only, read through ReadAt, io.ReadAll, io.Copy, io.CopyBuffer, io.SectionReader, a Read loop and Seek+ReadAll: a read that ends without an error (nil, or io.EOF) has delivered all the denoted bytes up to the true size; directories: static-set splitting with threshold m in {3,4,7}, member counts around m, m^2, m^3, members {distinct, drawn from a small pool, all the same, stored file/directory/symlink entries listed through Readdir(-1), Readdir(0), first Readdir(n)}; and with the PRODUCTION threshold untouched: directories of 9 999 / 10 000 / 10 001 / 15 000 / 20 000+-1 / 30 000 / ~35 000 members with sha224, sha256, sha1 and mixed refs (quick: ~35 000 sha256, 15 000 sha224, 10 001 stored entries), every static-set blob written must be a valid schema blob of at most schema.MaxSchemaBlobSize bytes, building must not panic, the listing must be exact (recursive splitting at the production threshold would need 10^8 members and is only exercised at lowered thresholds); every directory again through a fetcher that fails once on the k-th static-set fetch of the walk (top set, first subset, later subset, inner subset of a recursive split) or on one member entry, then StaticSet / Readdir on the SAME DirReader (from NewDirReader or DirectoryEntry.Directory) and on a fresh one: each call fails or lists exactly the members. distinct = per (length,content,reader,replica) file / per tree root ref / per (m,count,variant) directory; non-trivial = file length>0, tree with >=2 parts or a nested/offset part, directory that was split; hole trees count per root ref",
+		"files: lengths {0,1,64Ki+-1,256Ki+-1,288Ki+-1,320Ki+-1,1Mi+-1,1.25Mi+-1,2-5Mi} x content {zeros,random,engineered rollsum windows / periodic} x source reader shape {whole,onebyte,half,short,dataeof,zeroreads}, written with schema.WriteFileFromReader and read back; faulted writes: (one transient failure of the k-th chunk / bytes-schema / file-schema ReceiveBlob or k-th StatBlobs, before or after effect) x (learned at once / while the source still delivers / only after source EOF) x store prestate {empty, same file, same content other name, random subset, prefix chunks} x entry point {WriteFileFromReader, WriteFileMap, WriteFileChunks+upload}, nil error => every referenced blob stored and exact read-back, error => retry into the same store must succeed; trees: seeded well-formed file/bytes part trees (depth<=3; blobRef/bytesRef/hole parts, offsets, parts ending before their referent) as raw JSON, every part boundary +-1 and mid-part ReadAt, Seek+Read, full reads against the harness's own bytes.md interpreter, ForeachChunk (schemaPath and never-a-bytesRef always; chunk content when no bytesRef part is sub-ranged); sparse trees (depth<=3) with 2-8 GiB holes around 2^31/2^32/5 GiB, blobs behind them and sub-ranged bytesRef parts whose offset lies inside such a hole: ReadAt at every leaf boundary +-1, at 2^31/2^32 marks inside the holes and beyond EOF, Seek (all whences) + Read, against a lazy range interpreter of the stored JSON; every read buffer of the tree families is pre-filled with non-zero bytes (a reader must write what it reports, zeros of holes included), and trees with holes of 4 KiB-1 ... 2 MiB (depth<=3, bytesRef windows starting / ending inside holes) as well as the 2-8 GiB holes are read with ONE ReadAt / Read / io.ReadFull call into such buffers of 4 KiB+1, 8 KiB, 64 KiB, 1 MiB and seeded sizes (starting with the hole, inside it, running into it, leaving it after more than a page) and through io.CopyBuffer with one reused buffer; each tree again through a fetcher that fails one seeded fetch once (root / bytes schema / data blob; error, not-exist, truncated body, context cancelled): a read on the same FileReader or a fresh one fails or returns exactly the denoted bytes; writer-made files and every tree again with one blob below a bytesRef part (data chunk of a nested bytes blob / bytes blob two levels down) unfetchable for the whole read or on its first fetch only, read through ReadAt, io.ReadAll, io.Copy, io.CopyBuffer, io.SectionReader, a Read loop and Seek+ReadAll: a read that ends without an error (nil, or io.EOF) has delivered all the denoted bytes up to the true size; parallel reads (in a child process, since the typical failure is a runtime fatal error): directed valid trees (root file/bytes, depth 2 and 3) whose root has 16-64 distinct nested bytes blobs as bytesRef parts, per tree 24 (thorough 40) rounds with a fresh FileReader shared by 8 goroutines released together, at every step the 8 goroutines ReadAt seeded windows inside 8 different not yet resolved bytesRef parts (the fetcher holds the 8 nested-blob fetches until all have arrived), then windows crossing parts and the whole file: every read returns exactly the denoted bytes and the process survives; directories: static-set splitting with threshold m in {3,4,7}, member counts around m, m^2, m^3, members {distinct, drawn from a small pool, all the same, stored file/directory/symlink entries listed through Readdir(-1), Readdir(0), first Readdir(n)}; and with the PRODUCTION threshold untouched: directories of 9 999 / 10 000 / 10 001 / 15 000 / 20 000+-1 / 30 000 / ~35 000 members with sha224, sha256, sha1 and mixed refs (quick: ~35 000 sha256, 15 000 sha224, 10 001 stored entries), every static-set blob written must be a valid schema blob of at most schema.MaxSchemaBlobSize bytes, building must not panic, the listing must be exact (recursive splitting at the production threshold would need 10^8 members and is only exercised at lowered thresholds); every directory again through a fetcher that fails once on the k-th static-set fetch of the walk (top set, first subset, later subset, inner subset of a recursive split) or on one member entry, then StaticSet / Readdir on the SAME DirReader (from NewDirReader or DirectoryEntry.Directory) and on a fresh one: each call fails or lists exactly the members. distinct = per (length,content,reader,replica) file / per tree root ref / per (m,count,variant) directory; non-trivial = file length>0, tree with >=2 parts or a nested/offset part, directory that was split; hole trees count per root ref",
 		run)
 }
 
@@ -90,6 +97,7 @@ func run(r *ev.Run) {
 	jobs = append(jobs, hugeJobs(r)...)
 	jobs = append(jobs, holeJobs(r)...)
 	jobs = append(jobs, faultJobs(r)...)
+	jobs = append(jobs, parallelJobs(r)...)
 
 	// heavy jobs first
 	sortJobs(jobs)
@@ -211,6 +219,8 @@ func requireAll(r *ev.Run) {
 	for _, op := range deepOps {
 		r.Require("deep_fault_read", op+":error")
 	}
+	// part 2f
+	r.Require("parallel_read", "ran", fmt.Sprintf("%d-goroutines-cold-on-distinct-bytesrefs-together", parG), "depth=2", "depth=3", "root=file", "root=bytes")
 	// part 2c
 	r.Require("hole_tree_shape", "hole>4Ki", "hole>=64Ki", "hole>=1Mi", "root=file", "root=bytes", "depth=1", "depth=2", "depth=3", "bytes-offset", "bytes-short", "bytes-full")
 	r.Require("hole_read",
